@@ -95,6 +95,12 @@ func closure(key, otype string, safe bool) func() int {
 
 func set(kind, key string, v interface{}) error {
 	switch kind {
+	case "level":
+		// the option under observation is a beta option whose user value is hidden while the release level is stable:
+		// raising the level is the write that makes version 1 visible
+		return config.SetConfigOption("core/releaseLevel", config.ReleaseLevelNameBeta)
+	case "leveldef":
+		return config.SetDefaultConfigOption("core/releaseLevel", config.ReleaseLevelNameBeta)
 	case "def":
 		return config.SetDefaultConfigOption(key, v)
 	case "replace":
@@ -164,11 +170,27 @@ func runScript(s script, n int) {
 	default:
 		ot = config.OptTypeString
 	}
-	err := config.Register(&config.Option{Name: key, Key: key, Description: "verification fixture", OptType: ot,
-		DefaultValue: value(s.OType, 0)})
+	byLevel := s.Setter == "level" || s.Setter == "leveldef"
+	opt := &config.Option{Name: key, Key: key, Description: "verification fixture", OptType: ot, DefaultValue: value(s.OType, 0)}
+	if byLevel {
+		opt.ReleaseLevel = config.ReleaseLevelBeta
+		_ = config.SetConfigOption("core/releaseLevel", nil)
+		_ = config.SetDefaultConfigOption("core/releaseLevel", nil)
+		defer func() {
+			_ = config.SetConfigOption("core/releaseLevel", nil)
+			_ = config.SetDefaultConfigOption("core/releaseLevel", nil)
+		}()
+	}
+	err := config.Register(opt)
 	if err != nil {
 		emit(map[string]any{"e": "panic", "what": "register: " + err.Error()})
 		return
+	}
+	if byLevel {
+		if err := config.SetConfigOption(key, value(s.OType, 1)); err != nil {
+			emit(map[string]any{"e": "panic", "what": "preset: " + err.Error()})
+			return
+		}
 	}
 	closures := map[int]func() int{}
 	for _, c := range s.Callers {
